@@ -355,12 +355,27 @@ func corruptNestedInput(r *monitor.Rand, mark byte) []byte {
 	var b []byte
 	b = refwire.AppendKey(b, 1, 0)
 	b = refwire.AppendVarint(b, uint64(mark))
-	for i := 0; i < 1+r.Intn(3); i++ {
+	n := 1 + r.Intn(3)
+	goodFirst := 0 // well-formed elements ahead of the corrupt ones (they are decoded before the failure is met)
+	if r.Bool() {
+		goodFirst = 1 + r.Intn(3)
+		n += goodFirst
+	}
+	tagAll := 3
+	if r.Chance(1, 3) {
+		tagAll = 4
+	}
+	for i := 0; i < n; i++ {
 		var p []byte
 		p = refwire.AppendKey(p, 1, 0)
 		p = refwire.AppendVarint(p, uint64(mark)<<8|0x66)
 		p = refwire.AppendKey(p, 2, 2)
 		p = refwire.AppendLen(p, []byte{mark, 'b', 'a', 'd'})
+		if i < goodFirst {
+			b = refwire.AppendKey(b, tagAll, 2)
+			b = refwire.AppendLen(b, p)
+			continue
+		}
 		switch r.Intn(3) {
 		case 0:
 			p = append(p, 0x1a, 0x7f) // length-delimited field declaring more than is left
@@ -372,6 +387,9 @@ func corruptNestedInput(r *monitor.Rand, mark byte) []byte {
 		tag := 3
 		if r.Chance(1, 3) {
 			tag = 4
+		}
+		if goodFirst > 0 {
+			tag = tagAll
 		}
 		b = refwire.AppendKey(b, tag, 2)
 		b = refwire.AppendLen(b, p)
